@@ -426,6 +426,18 @@ func RunC04(ep *core.Episode) {
 				ep.Fail("C04.nobody", "response %d (%s, status %d) carries %d body bytes", i, rq.Method, p.status, len(m.Body))
 				return
 			}
+			// framing fields of a bodiless response: 1xx and 204 carry no Content-Length at all (RFC 7230 3.3.2);
+			// on HEAD and 304 it may only announce the length of the body the program produced
+			if v, ok := m.Get("Content-Length"); ok {
+				if p.status/100 == 1 || p.status == 204 {
+					ep.Fail("C04.framing", "response %d (status %d) carries Content-Length %q", i, p.status, v)
+					return
+				}
+				if v != fmt.Sprint(len(p.body)) {
+					ep.Fail("C04.framing", "response %d (%s, status %d): Content-Length %q, but the program's body has %d bytes; %s", i, rq.Method, p.status, v, len(p.body), p.desc)
+					return
+				}
+			}
 		} else {
 			if !bytes.Equal(m.Body, p.body) {
 				ep.Fail("C04.decode", "response %d: body %dB, program produced %dB (first difference at %d); %s", i, len(m.Body), len(p.body), firstDiff(m.Body, p.body), p.desc)
